@@ -353,7 +353,7 @@ func drive(id string, args []string) int {
 			return 2
 		}
 	}
-	timeout := 10 * time.Minute
+	timeout := 45 * time.Minute
 	if e.Timeout != nil {
 		timeout = e.Timeout(tier)
 	}
